@@ -450,8 +450,24 @@ def gen_malformed(rng):
         fk, pb, P = pick_instance(rng, want_small_p=True)
         P = rng.choice([p for p in MENU[pb] if p <= 8])
         n = rng.choice([(1 << P) - 2, (1 << P) - 1, 1 << P, (1 << P) + 1, (1 << P) + rng.randint(2, 9)])
+        r = rng.random()
+        if r < 0.45:
+            # far too long: more entries than the Probability type can count (a length narrowed to
+            # Probability before the comparison would alias a short table)
+            fk, pb = rng.choice([0, 1]), 8
+            P = rng.choice(MENU[8])
+            n = rng.choice([255, 256, 257, 258, 259, 256 + rng.randint(2, 254), 510, 511, 512, 513,
+                            256 + (1 << P) - 2, 256 + (1 << P) - 1, 256 + (1 << P), 512 + rng.randint(0, 5)])
+        elif r < 0.5:
+            fk, pb = rng.choice([0, 1]), 16
+            P = rng.choice(MENU[16])
+            n = 65536 + rng.choice([0, 1, 2, 3, max(0, (1 << P) - 2)])
         n = max(n, 0)
-        ws = gen_weights(rng, fk, n, "plain") if n else []
+        style = rng.choice(["plain", "plain", "zeros"]) if n <= 1000 else "plain"
+        ws = gen_weights(rng, fk, n, style) if n else []
+        if n >= 256 and rng.random() < 0.4:
+            z = special_values(fk)["pzero"]
+            ws[:256] = [z] * 256         # no weight on the first 256 entries
     elif kind == "short":
         n = rng.choice([0, 1, 1])
         ws = [fbits(fk, rng.uniform(0.1, 5)) for _ in range(n)]
